@@ -95,6 +95,7 @@ const (
 	evRestart
 	evClockResume
 	evCampaign
+	evFollowUp
 )
 
 type event struct {
@@ -516,6 +517,13 @@ func (g *Gen) after() {
 			g.do(Action{K: ACrash, N: n.id, I: 0, J: 0})
 			down := int64((0.1 + 1.0*g.rng.Float64()) * float64(n.cfg.ElectionTick) * tickUnit)
 			g.schedule(&event{at: g.now + down, kind: evRestart, n: n.id})
+			// ... and once it is back, let it stand for election while the current
+			// leader is cut off: a node that has lost what it promised, or whose
+			// log or hard state is not what it should be, does its damage as a
+			// leader or as a voter
+			if chance(g.rng, 0.7) {
+				g.schedule(&event{at: g.now + down + int64((0.2+1.5*g.rng.Float64())*tickUnit), kind: evFollowUp, n: n.id})
+			}
 		}
 	}
 	for _, id := range c.ids {
@@ -708,6 +716,22 @@ func (g *Gen) handle(e *event) {
 	case evFault:
 		g.fault()
 		g.schedule(&event{at: g.expDelay(g.faultRate), kind: evFault})
+	case evFollowUp:
+		n := c.nodes[e.n]
+		if !n.up || c.vg != nil {
+			return
+		}
+		c.stats.fault("campaign_following_foreign_violation")
+		if l := g.leaderID(); l != 0 && l != e.n && g.allow("partition") {
+			var rest []uint64
+			for _, x := range c.ids {
+				if x != l {
+					rest = append(rest, x)
+				}
+			}
+			g.do(Action{K: APartition, Part: [][]uint64{{l}, rest}})
+		}
+		g.do(Action{K: ACampaign, N: e.n})
 	case evCampaign:
 		if n := c.nodes[e.n]; n.up && c.confChangeHandedOut(n) {
 			c.stats.probe("campaign_call_with_conf_change_handed_out")
